@@ -200,6 +200,8 @@ def one_case(ctx, rng, wd, K=None, mode=None, force_N=None):
         pth = outfile[:-4] + "_qvectors.csv"
         try:
             qv = pd.read_csv(pth)
+            ctx.check("qvector_csv", list(qv.columns)[:d] == [f"q{i}" for i in range(d)] and not any(str(c).startswith("Unnamed") for c in qv.columns),
+                      key + "/qvector_file_layout", lambda: f"_qvectors.csv has columns {list(qv.columns)}: expected q0.. first and no index column", info)
             got = sorted(tuple(int(round(v)) for v in row) for row in qv[[f"q{i}" for i in range(d)]].values)
             ctx.check("qvector_csv", got == sorted(nvec), key + "/qvector_set",
                       lambda: f"saved wave-vector set differs from the documented set: {len(got)} vs {len(nvec)} vectors; "
